@@ -1,5 +1,7 @@
 //! C20: the colour a face colour is reduced to under each ColorDepth, for the foreground,
 //! background and underline roles, observed in the SGR bytes of the real encoder.
+// uses tool_c20sweep (always built): the Rust predicate whose verdict is cross-checked in Coq
+use crate::registry::tool_c20sweep::{judge, Tables};
 use crate::util::*;
 use serde_json::{json, Value};
 use surf_n_term::encoder::{ColorDepth, Encoder, TTYEncoder};
@@ -34,6 +36,14 @@ fn coq_depth(s: &str) -> &'static str {
     }
 }
 
+thread_local! {
+    /// the tables the translator extracted (written by props.d/C20.py before the harness runs)
+    static TABLES: Option<Tables> = {
+        let path = std::env::var("VERIF_C20_TABLES").unwrap_or_else(|_| "_build/c20_tables_C20.json".to_string());
+        Tables::load(&path).ok()
+    };
+}
+
 pub fn run(input: &Value) -> Case {
     let depth = input["depth"].as_str().unwrap_or("256").to_string();
     let c = input["c"].as_array().cloned().unwrap_or_default();
@@ -49,13 +59,16 @@ pub fn run(input: &Value) -> Case {
         ..FaceModify::default()
     });
     let out = encode_bytes(&caps, cmd);
+    // the verdict of the Rust predicate (tool_c20sweep::judge) on the same bytes: must equal Coq's
+    let tool = TABLES.with(|t| t.as_ref().map(|t| judge(t, &depth, [r, gg, b], out.as_deref())));
     let coq = format!(
-        "K {} (mkRgba {} {} {} 255) {}",
+        "K {} (mkRgba {} {} {} 255) {} {}",
         coq_depth(&depth),
         r,
         gg,
         b,
-        copt(out.as_ref().map(|x| cbytes(x)))
+        copt(out.as_ref().map(|x| cbytes(x))),
+        copt(tool.map(|v| cbool(v).to_string()))
     );
     let mut j = input.clone();
     j["impl"] = match &out {
